@@ -363,7 +363,10 @@ def run_c14(ctx):
             n_perm = 2 + tape.draw(3, "nperm")
             perms = [None] + [1 + tape.draw(1 << 20, "perm_seed") for _ in range(n_perm)]
             hs = [0, 1 + tape.draw(63, "hashseed")]
-            requests = [(h, [dict(base, perm_seed=p) for p in perms]) for h in hs]
+            as_iter = [False] + [tape.chance(0.4, "as_iter") for _ in perms[1:]]
+            if any(as_iter):
+                ctx.count("fault:phases_as_one_shot_iterables", sum(as_iter))
+            requests = [(h, [dict(base, perm_seed=p, as_iter=ai) for p, ai in zip(perms, as_iter)]) for h in hs]
             answers = run_workers(requests)
             can = answers[0][0]
             ctx.count("probe:program_level")
